@@ -203,12 +203,14 @@ declarations:
       declarations:
       - decl: void setName(const std::string &name)
       - decl: int area(const std::string &unit, int scale = 1)
-      - decl: void accum(int *arr +dimension(..), int n)
-      - decl: enum Tint { PALE, DEEP = 4 }
-      - decl: int visit(int (*fn)(int, double), int n)
-        options:
-          wrap_python: false
-          wrap_lua: false
+      - block: True
+        declarations:
+        - decl: void accum(int *arr +dimension(..), int n)
+        - decl: enum Tint { PALE, DEEP = 4 }
+        - decl: int visit(int (*fn)(int, double), int n)
+          options:
+            wrap_python: false
+            wrap_lua: false
     - decl: int other()
     - decl: void put(int a)
     - decl: void put(double a)
@@ -246,9 +248,10 @@ def scope_nodes(d):
     blk = cls["declarations"][1]
     fn = blk["declarations"][0]        # setName: has a bufferify clone
     fn2 = blk["declarations"][1]       # area: has default-argument clones
-    fn3 = blk["declarations"][2]       # accum: assumed-rank argument, one Fortran specific per rank
-    en = blk["declarations"][3]        # an enumeration: the member-name templates are options
-    fn4 = blk["declarations"][4]       # visit: a callback with unnamed parameters (abstract interface)
+    inner = blk["declarations"][2]     # a block inside the block (no level of its own: it sets nothing)
+    fn3 = inner["declarations"][0]     # accum: assumed-rank argument, one Fortran specific per rank
+    en = inner["declarations"][1]      # an enumeration: the member-name templates are options
+    fn4 = inner["declarations"][2]     # visit: a callback with unnamed parameters (abstract interface)
     return {"lib": d, "ns": ns, "cls": cls, "blk": blk, "fn": fn, "fn2": fn2, "fn3": fn3, "en": en, "fn4": fn4}
 
 
@@ -260,9 +263,9 @@ def leaves(d):
            (cls["declarations"][0], ["lib", "ns", "cls"]),
            (blk["declarations"][0], ["lib", "ns", "cls", "blk", "fn"]),
            (blk["declarations"][1], ["lib", "ns", "cls", "blk", "fn2"]),
-           (blk["declarations"][2], ["lib", "ns", "cls", "blk", "fn3"]),
-           (blk["declarations"][3], ["lib", "ns", "cls", "blk", "en"]),
-           (blk["declarations"][4], ["lib", "ns", "cls", "blk", "fn4"]),
+           (n["fn3"], ["lib", "ns", "cls", "blk", "fn3"]),
+           (n["en"], ["lib", "ns", "cls", "blk", "en"]),
+           (n["fn4"], ["lib", "ns", "cls", "blk", "fn4"]),
            (cls["declarations"][2], ["lib", "ns", "cls"]),
            (cls["declarations"][3], ["lib", "ns", "cls"]),
            (cls["declarations"][4], ["lib", "ns", "cls"]),
